@@ -1603,7 +1603,7 @@ class vGeo:
             raise ValueError(f"Expected 'float;float' , got: {ical}") from e
 
     def __eq__(self, other):
-        return self.to_ical() == other.to_ical()
+        return isinstance(other, vGeo) and self.to_ical() == other.to_ical()
 
     def __repr__(self):
         """repr(self)"""
